@@ -116,8 +116,8 @@ class GeneralCallables:
         return cls(call_funcs.in_range, lower=lower, upper=upper)
 
     @classmethod
-    def not_in_range(cls, value):
-        return cls(call_funcs.not_in_range, value=value)
+    def not_in_range(cls, lower, upper):
+        return cls(call_funcs.not_in_range, lower=lower, upper=upper)
 
     @classmethod
     def equal_to_approx(cls, value, tolerance=1e-8):
